@@ -13,7 +13,10 @@
 (*          "ok" one value, "zero" nothing, "two" two values, "partial" an *)
 (*          unfinished object, "unsup" ErrUnsupported without touching the *)
 (*          encoder, "unsupafter" ErrUnsupported after writing, "error",   *)
-(*          "reset" calls Reset on the encoder it was given                *)
+(*          "reset" calls Reset on the encoder it was given,               *)
+(*          "nestreset" first passes the coder on to a nested MarshalEncode *)
+(*          / UnmarshalDecode of a value that has a method of its own, and  *)
+(*          then calls Reset: the outer call is still in progress           *)
 (*   nil    the value is reached through a nil pointer                     *)
 (* Pointer-receiver methods and *T functions are reached for addressable   *)
 (* and non-addressable values alike; nothing is called on a nil pointer.   *)
@@ -48,7 +51,7 @@ Run(cfg, cands, i) ==
            \* only a callable that is handed the encoder may decline; a bytes-returning one may not
            [] b = "unsup" /\ c.coder ->
                 LET r == Run(cfg, cands, i + 1) IN [calls |-> <<c.name>> \o r.calls, out |-> r.out]
-           [] b = "reset" /\ c.coder -> here(<<"panic-reset">>)
+           [] b \in {"reset", "nestreset"} /\ c.coder -> here(<<"panic-reset">>)
            [] OTHER -> here(<<"err">>)
 
 Dispatch(cfg) ==
